@@ -17,7 +17,7 @@ class TLCError(Exception):
 
 
 def run_tlc(module, cfg=None, workdir=None, workers=1, simulate=None, depth=None, seed=None, coverage=False,
-            timeout=3600, env_extra=None, java_opts=None, tag=None):
+            timeout=3600, env_extra=None, java_opts=None, tag=None, module_dir=None):
     """Runs TLC; returns dict(out=<stdout path>, generated, distinct, depth, wall, coverage).
 
     simulate: None or "num=N" string; TLC's stdout (with the emitted JSON lines) is kept in <workdir>/<tag>.out."""
@@ -43,7 +43,7 @@ def run_tlc(module, cfg=None, workdir=None, workers=1, simulate=None, depth=None
     env.update(env_extra or {})
     t0 = time.time()
     with open(out, "w") as fh:
-        p = subprocess.run(cmd, cwd=SPEC, stdout=fh, stderr=subprocess.STDOUT, env=env, timeout=timeout)
+        p = subprocess.run(cmd, cwd=module_dir or SPEC, stdout=fh, stderr=subprocess.STDOUT, env=env, timeout=timeout)
     wall = time.time() - t0
     shutil.rmtree(meta, ignore_errors=True)
     info = parse_out(out)
